@@ -167,3 +167,35 @@ pub(crate) fn ns_ready(node: &str, actor: ractor::ActorId, elected: bool) {
 pub(crate) fn ns_gone(node: &str, actor: ractor::ActorId, known: bool) {
     ractor::verif::emit_kv("ns.gone", actor.pid(), i64::from(known), vec![kvs("node", node)]);
 }
+
+// ------------------------------------------------------------------------------------------------
+// Remote actors (emit-only): tag allocation / resolution in the proxy, relay steps in the session
+// ------------------------------------------------------------------------------------------------
+fn remote_parts(id: ractor::ActorId) -> (u64, i64) {
+    match id {
+        ractor::ActorId::Remote { node_id, pid } => (pid, node_id as i64),
+        ractor::ActorId::Local(pid) => (pid, -1),
+    }
+}
+/// the proxy forwarded a cast (tag 0) or a call (fresh tag) to its session
+pub(crate) fn proxy_fwd(id: ractor::ActorId, kind: &str, tag: u64) {
+    let (pid, node_id) = remote_parts(id);
+    ractor::verif::emit_kv("proxy.fwd", pid, tag as i64, vec![kvi("node_id", node_id), kvs("k", kind)]);
+}
+/// the proxy handles a reply frame with this tag; `hit` = a reply port is parked under it
+pub(crate) fn proxy_resolve(id: ractor::ActorId, tag: u64, hit: bool) {
+    let (pid, node_id) = remote_parts(id);
+    ractor::verif::emit_kv("proxy.resolve", pid, tag as i64, vec![kvi("node_id", node_id), kvi("hit", i64::from(hit))]);
+}
+/// a session received a request frame for local pid `to`; `ok` = it is advertised, alive and remotable
+pub(crate) fn sess_fwd(node: &str, to: u64, kind: &str, tag: u64, ok: bool) {
+    ractor::verif::emit_kv("sess.fwd", to, tag as i64, vec![kvs("node", node), kvs("k", kind), kvi("ok", i64::from(ok))]);
+}
+/// a session received a reply frame for the proxy of remote pid `to`
+pub(crate) fn sess_reply(node: &str, to: u64, tag: u64, ok: bool) {
+    ractor::verif::emit_kv("sess.reply", to, tag as i64, vec![kvs("node", node), kvi("ok", i64::from(ok))]);
+}
+/// a session handles a control frame about remote pid `pid` (spawn / term / join / leave)
+pub(crate) fn sess_ctl(node: &str, kind: &str, pid: u64, group: &str) {
+    ractor::verif::emit_kv("sess.ctl", pid, 0, vec![kvs("node", node), kvs("k", kind), kvs("group", group)]);
+}
